@@ -68,12 +68,14 @@ VARIABLE c
 None == [uplo |-> "none"]
 Case(m, n, ld, uplo, diag) == [uplo |-> uplo, diag |-> diag, m |-> m, n |-> n, ld |-> ld]
 Init == c = None
-DefineFull(m, n, pad)        == c = None /\ c' = Case(m, n, m + pad, "full", 1)
-DefineUpper(m, n, pad, diag) == c = None /\ c' = Case(m, n, m + pad, "upper", diag)
-DefineLower(m, n, pad, diag) == c = None /\ c' = Case(m, n, m + pad, "lower", diag)
-Next == \/ \E m \in 1..MaxM, n \in 1..MaxN, pad \in 0..MaxPad : DefineFull(m, n, pad)
-        \/ \E m \in 1..MaxM, n \in 1..MaxN, pad \in 0..MaxPad, diag \in {0, 1} : DefineUpper(m, n, pad, diag)
-        \/ \E m \in 1..MaxM, n \in 1..MaxN, pad \in 0..MaxPad, diag \in {0, 1} : DefineLower(m, n, pad, diag)
+\* each case is its own behaviour  None -> case  (the guard c = None comes first so that TLC does not enumerate the box
+\* again in every case state)
+DefineFull  == c = None /\ \E m \in 1..MaxM, n \in 1..MaxN, pad \in 0..MaxPad : c' = Case(m, n, m + pad, "full", 1)
+DefineUpper == c = None /\ \E m \in 1..MaxM, n \in 1..MaxN, pad \in 0..MaxPad, diag \in {0, 1} :
+                             c' = Case(m, n, m + pad, "upper", diag)
+DefineLower == c = None /\ \E m \in 1..MaxM, n \in 1..MaxN, pad \in 0..MaxPad, diag \in {0, 1} :
+                             c' = Case(m, n, m + pad, "lower", diag)
+Next == DefineFull \/ DefineUpper \/ DefineLower
 Spec == Init /\ [][Next]_c
 
 \* ------------------------------------------------------------------------------------------ invariants
